@@ -54,14 +54,15 @@ MeanOutput(outs) ==
    IN [k \in labs |-> FDiv(FoldSeq(LAMBDA o, acc : FAdd(IF k \in DOMAIN o THEN o[k] ELSE F0, acc), F0, outs),
                            FInt(Len(outs)))]
 
-(* ---- SlidingWindowTracker(k): ring buffer + next write position ---- *)
-NoVal == "nan"
-SWInit(k) == [buf |-> [i \in 1..k |-> NoVal], pos |-> 0, k |-> k]
+(* ---- SlidingWindowTracker(k): ring buffer + next write position.  A slot is <<>> (the   *)
+(* NaN placeholder of the implementation) or <<v>>.                                       *)
+SWInit(k) == [buf |-> [i \in 1..k |-> <<>>], pos |-> 0, k |-> k]
 \* intended behaviour: write at pos, advance modulo k
-SWUpd(s, v) == [s EXCEPT !.buf[s.pos + 1] = v, !.pos = (s.pos + 1) % s.k]
+SWUpd(s, v) == [s EXCEPT !.buf[s.pos + 1] = <<v>>, !.pos = (s.pos + 1) % s.k]
 \* the shipped code before the fix (negative control): on wrap it resets the index to 0,
 \* writes there, and does *not* advance
-SWUpdWrapBug(s, v) == IF s.pos < s.k THEN [s EXCEPT !.buf[s.pos + 1] = v, !.pos = s.pos + 1]
-                      ELSE [s EXCEPT !.buf[1] = v, !.pos = 0]
-SWContent(s) == SelectSeq(s.buf, LAMBDA x : x # NoVal)
+SWUpdWrapBug(s, v) == IF s.pos < s.k THEN [s EXCEPT !.buf[s.pos + 1] = <<v>>, !.pos = s.pos + 1]
+                      ELSE [s EXCEPT !.buf[1] = <<v>>, !.pos = 0]
+SWContent(s) == LET full == SelectSeq(s.buf, LAMBDA x : x # <<>>)
+                IN [i \in 1..Len(full) |-> full[i][1]]
 =========================================================================
